@@ -24,6 +24,7 @@ type fileSpec struct {
 	path   string
 	fields map[string]bool // tracked field / variable names
 	calls  map[string]bool // tracked callee names (helper functions that touch shared state)
+	allocs map[string]bool // tracked struct types: a composite literal T{...} / &T{...} is an allocation "new:T"
 }
 
 func set(xs ...string) map[string]bool {
@@ -35,20 +36,20 @@ func set(xs ...string) map[string]bool {
 }
 
 var specs = []fileSpec{
-	{"cachex/future.go", set("value", "err", "updateTime", "predecessor", "wg"), set("setValue", "getUpdateTime", "getPredecessor")},
+	{"cachex/future.go", set("value", "err", "updateTime", "predecessor", "wg"), set("setValue", "getUpdateTime", "getPredecessor"), nil},
 	{"cachex/cache_impl.go", set("value", "err", "updateTime", "predecessor", "wg", "d", "jobChan", "closeChan", "futures"),
-		set("setValue", "getUpdateTime", "getPredecessor", "getFutureStatus", "fetchIfFutureStatusGood", "sendJob", "removeRotted", "Get2", "newFuture", "loader")},
-	{"ants/task_callback_ants.go", set("result", "err", "wg", "doneChan"), set("runTaskOnce", "run", "sendInnerCallback", "handler", "onError", "Get2", "cancel")},
-	{"ants/pool_impl.go", set("taskChan", "innerCallbackChan", "closeChan"), set("run", "callback", "newTaskCallback", "newTaskDiscard", "onError")},
-	{"taskx/task_callback.go", set("result", "err", "isHandled", "wg"), set("handler")},
-	{"taskx/queue.go", set("C", "closeChan", "wg"), set("PushTask", "newTaskDelayed")},
-	{"loom/queue.go", set("head", "tail", "next", "value"), set("queueLoad", "queueCas")},
-	{"loom/wheel.go", set("position", "channels", "c", "wc"), set("fetchWheelData", "onTicker", "callback", "Reset")},
-	{"loom/wheel_timer.go", set("C", "interval", "wheel"), set("fetchWheelData")},
-	{"loom/wait_close.go", set("closeChan", "state", "mutex", "globalClosedChan"), set("checkInitSlow", "callback")},
-	{"loom/flag.go", set("addr"), set()},
-	{"loom/atomic.go", set("addr"), set("predicate")},
-	{"loom/mutex.go", set("state", "Mutex", "m"), set("TryLock")},
+		set("setValue", "getUpdateTime", "getPredecessor", "getFutureStatus", "fetchIfFutureStatusGood", "sendJob", "removeRotted", "Get2", "newFuture", "loader"), nil},
+	{"ants/task_callback_ants.go", set("result", "err", "wg", "doneChan"), set("runTaskOnce", "run", "sendInnerCallback", "handler", "onError", "Get2", "cancel"), nil},
+	{"ants/pool_impl.go", set("taskChan", "innerCallbackChan", "closeChan"), set("run", "callback", "newTaskCallback", "newTaskDiscard", "onError"), nil},
+	{"taskx/task_callback.go", set("result", "err", "isHandled", "wg"), set("handler"), nil},
+	{"taskx/queue.go", set("C", "closeChan", "wg"), set("PushTask", "newTaskDelayed"), set("taskCallback")},
+	{"loom/queue.go", set("head", "tail", "next", "value"), set("queueLoad", "queueCas"), nil},
+	{"loom/wheel.go", set("position", "channels", "c", "wc"), set("fetchWheelData", "onTicker", "callback", "Reset"), nil},
+	{"loom/wheel_timer.go", set("C", "interval", "wheel"), set("fetchWheelData"), nil},
+	{"loom/wait_close.go", set("closeChan", "state", "mutex", "globalClosedChan"), set("checkInitSlow", "callback"), nil},
+	{"loom/flag.go", set("addr"), set(), nil},
+	{"loom/atomic.go", set("addr"), set("predicate"), nil},
+	{"loom/mutex.go", set("state", "Mutex", "m"), set("TryLock"), nil},
 }
 
 type walker struct {
@@ -112,6 +113,10 @@ func (w *walker) expr(e ast.Expr) []string {
 	case *ast.ParenExpr:
 		return w.expr(v.X)
 	case *ast.StarExpr:
+		// a plain load through a tracked pointer variable (*addr)
+		if id, ok := v.X.(*ast.Ident); ok && w.spec.fields[id.Name] {
+			return []string{"R:*" + id.Name}
+		}
 		return w.expr(v.X)
 	case *ast.IndexExpr:
 		return append(w.expr(v.X), w.expr(v.Index)...)
@@ -121,6 +126,9 @@ func (w *walker) expr(e ast.Expr) []string {
 		return w.expr(v.X)
 	case *ast.CompositeLit:
 		var t []string
+		if id, ok := v.Type.(*ast.Ident); ok && w.spec.allocs[id.Name] {
+			t = append(t, "new:"+id.Name)
+		}
 		for _, el := range v.Elts {
 			if kv, ok := el.(*ast.KeyValueExpr); ok {
 				t = append(t, w.expr(kv.Value)...)
@@ -229,6 +237,10 @@ func (w *walker) lhs(e ast.Expr) []string {
 		}
 		return t
 	case *ast.StarExpr:
+		// a plain store through a tracked pointer variable (*addr = v)
+		if id, ok := v.X.(*ast.Ident); ok && w.spec.fields[id.Name] {
+			return []string{"W:*" + id.Name}
+		}
 		return w.expr(v.X)
 	}
 	return nil
